@@ -99,3 +99,12 @@ def register(add, parse, find_func, const_int, rat_of, ShapeError, module_assign
                 seq_shape = True
     add("managerSeqIfOneStrategyOrOneThread", "Bool", "true" if seq_shape else "false",
         "BacktestManager.run takes the in-process path iff len(strategies) == 1 or threads == 1")
+    # market.data = data.data[market.market_info].copy(deep=False)   (a per-run view of the shared frame)
+    view = False
+    for n in ast.walk(start):
+        if isinstance(n, ast.Assign) and isinstance(n.targets[0], ast.Attribute) and n.targets[0].attr == "data" \
+                and getattr(n.targets[0].value, "id", "") == "market" and isinstance(n.value, ast.Call) \
+                and getattr(n.value.func, "attr", "") == "copy" and isinstance(n.value.func.value, ast.Subscript):
+            view = True
+    add("managerDataView", "Bool", "true" if view else "false",
+        "_start assigns a copy (DataFrame.copy) of the shared data frame to market.data (false: the shared frame itself)")
